@@ -166,7 +166,11 @@ def run_subdivide(nodes, flat, as_tuples=False, judge_curve=True):
                         f"are not the original piece restricted to consecutive dyadic intervals: "
                         f"{[_fl(p) for p in fin_pieces[where[k]:where[k + 1]]][:4]}"))
     # flatness postcondition (strict, with a relative slack far below any mutant's effect)
-    tol2 = F(flat) * F(flat) * (1 + F(1, 10 ** 9))
+    # "closer than the flatness" is strict.  Where flat (and hence flat^2, and on the lattice the
+    # distances too) is exactly representable, an exact tie must have been split; elsewhere the
+    # library can only compare rounded numbers and gets a relative slack far below any effect
+    exact_flat = float(flat) * 1024 == int(float(flat) * 1024) and abs(flat) < 1 << 20
+    tol2 = F(flat) * F(flat) * (1 if exact_flat and judge_curve else 1 + F(1, 10 ** 9))
     for k, (p_0, p_1, p_2, p_3) in enumerate(fin_pieces):
         for inner in (p_1, p_2):
             dist2 = sq_dist_point_segment(inner, p_0, p_3)
